@@ -216,14 +216,62 @@ Theorem C13_server_retry_stateless : forall c s now p s1 o q,
 Proof. exact retry_core. Qed.
 Print Assumptions C13_server_retry_stateless.
 
-(** Over any input: at most one connection per client-chosen DCID, every created connection stays routed under it,
-    and a connection created for an address that must be verified carries a token valid for that address. *)
-Theorem C13_server_connections : forall c ops s' outs, srun c s0 ops = (s', outs) ->
-  NoDup (map (fun x => match x with (_, d, _, _) => d end) (created s')) /\
-  (forall n d a v, In (n, d, a, v) (created s') -> hget d (handlers s') <> None) /\
-  (forall n d a v, In (n, d, a, v) (created s') -> zmem a (verifyAddrs c) = true -> v = true).
-Proof. exact sa_conns. Qed.
-Print Assumptions C13_server_connections.
+(** Connections and routes, with connections that close ([SClose]: every ID the connection registered is removed, by key,
+    as connIDGenerator.RemoveAll does) and client DCIDs that are retired ([SRetire], packetHandlerMap.Remove).
+    If the connection ID generator never hands out an ID that is registered at that moment ([sfresh]; it may echo the
+    client's own DCID), then in every reachable state every connection ID a LIVE connection has registered routes to that
+    connection and no ID is registered by two live connections: at most one live connection per client-chosen DCID, and the
+    DCID routes to it until it is retired or the connection closes. (Round 5: replaces C13_server_connections, which was only
+    true because the model could not remove routes.) *)
+Theorem C13_server_routes_while_live : forall c ops s' outs, srun c s0 ops = (s', outs) -> sfresh c s0 ops = true ->
+  (forall n k, In (n, k) (owns s') -> hget k (handlers s') = Some n) /\
+  (forall n m k, In (n, k) (owns s') -> In (m, k) (owns s') -> n = m).
+Proof. exact sa_routes. Qed.
+Print Assumptions C13_server_routes_while_live.
+
+(** A connection is only ever created for a DCID that is not routed — in particular not while a live connection has it
+    registered; after a close / retirement the same DCID may get a new connection (as in the code). *)
+Theorem C13_server_no_second_connection_while_routed : forall c s now p s1 n0 od0 rs0 v0 rtt0 e0,
+  recv_core c s now p = (s1, SNewConn n0 od0 rs0 v0 rtt0 e0) ->
+  exists size dcid scid tok addr intact newcid, p = SPinitial size dcid scid tok addr intact newcid /\
+    hget dcid (handlers s) = None /\ (route_inv s -> forall m, ~ In (m, dcid) (owns s)).
+Proof. exact no_second_while_live. Qed.
+Print Assumptions C13_server_no_second_connection_while_routed.
+
+(** Over any input (closes and retirements included): a connection created for an address that must be verified carries a
+    token valid for that address. *)
+Theorem C13_server_verified_when_required : forall c ops s' outs, srun c s0 ops = (s', outs) ->
+  forall n d a v, In (n, d, a, v) (created s') -> zmem a (verifyAddrs c) = true -> v = true.
+Proof. exact sa_verified. Qed.
+Print Assumptions C13_server_verified_when_required.
+
+(** REFUTED without the generator's freshness: AddWithConnID checks only the client's DCID and overwrites
+    handlers[newConnID] blindly. If the ID generated for a second connection equals the DCID a first, live connection was
+    created for, that DCID is re-routed to the second connection; closing the second then removes the first's route.
+    (Replayed on the real baseServer with a scripted ConnectionIDGenerator: serveraccept, DIST key cid-collision-reroute.) *)
+Example C13_server_routes_refuted_without_fresh_ids :
+  let c := mkCfg false false [] [] in
+  let d1 := [1;1;1;1;1;1;1;1] in let d2 := [2;2;2;2;2;2;2;2] in
+  let ops := [ SRecv 1 (SPinitial 1200 d1 [7] TkNone 0 true [5;5]);
+               SRecv 2 (SPinitial 1200 d2 [8] TkNone 1 true d1) ] in
+  sfresh c s0 ops = false /\
+  In (0, d1) (owns (fst (srun c s0 ops))) /\ hget d1 (handlers (fst (srun c s0 ops))) = Some 1 /\
+  hget d1 (handlers (fst (srun c s0 (ops ++ [SClose 1])))) = None /\ In (0, d1) (owns (fst (srun c s0 (ops ++ [SClose 1])))).
+Proof. vm_compute. repeat split; auto. Qed.
+Print Assumptions C13_server_routes_refuted_without_fresh_ids.
+
+(** non-vacuity of the repaired statement: a connection, a duplicate routed to it, its close, and a second connection for
+    the same DCID afterwards *)
+Example C13_server_routes_example :
+  let c := mkCfg false false [] [] in
+  let d1 := [1;1;1;1;1;1;1;1] in
+  let ops := [ SRecv 1 (SPinitial 1200 d1 [7] TkNone 0 true [5;5]); SRecv 2 (SPinitial 1200 d1 [7] TkNone 0 true [6;6]);
+               SClose 0; SRecv 3 (SPinitial 1200 d1 [7] TkNone 0 true [9;9]); SRetire 1 d1 ] in
+  sfresh c s0 ops = true /\
+  snd (srun c s0 ops) = [SNewConn 0 d1 None false 0 0; SRouted 0; SRemoved 2; SNewConn 1 d1 None false 0 0; SRemoved 1] /\
+  owns (fst (srun c s0 ops)) = [(1, [9;9])].
+Proof. vm_compute. repeat split. Qed.
+Print Assumptions C13_server_routes_example.
 
 (** A further Initial for a DCID that has a connection goes to that connection. *)
 Theorem C13_server_duplicate_routed : forall c s now size dcid scid tok addr intact newcid n,
